@@ -5946,6 +5946,29 @@ moveto_axis_node_next_dfs_backward(const struct lyd_node *iter, const struct lyd
 }
 
 /**
+ * @brief Get the next node in a backward DFS that is not an ancestor of a node (preceding axis).
+ *
+ * @param[in] iter Last returned node.
+ * @param[in] node Context node whose ancestors are skipped.
+ * @return Next node, NULL if there are no more.
+ */
+static const struct lyd_node *
+moveto_axis_node_next_preceding(const struct lyd_node *iter, const struct lyd_node *node)
+{
+    const struct lyd_node *next, *parent;
+
+    next = iter;
+    do {
+        next = moveto_axis_node_next_dfs_backward(next, NULL);
+
+        /* ancestors are not on the preceding axis */
+        for (parent = lyd_parent(node); parent && (parent != next); parent = lyd_parent(parent)) {}
+    } while (next && parent);
+
+    return next;
+}
+
+/**
  * @brief Get the first node on an axis for a context node.
  *
  * @param[in,out] iter NULL, updated to the next node.
@@ -6017,6 +6040,14 @@ moveto_axis_node_next_first(const struct lyd_node **iter, enum lyxp_node_type *i
         break;
 
     case LYXP_AXIS_FOLLOWING:
+        if ((node_type == LYXP_NODE_ELEM) || (node_type == LYXP_NODE_TEXT)) {
+            /* first next sibling of the node or of its closest ancestor that has one */
+            for (next = node; next && !next->next; next = lyd_parent(next)) {}
+            next = next ? next->next : NULL;
+            next_type = next ? LYXP_NODE_ELEM : 0;
+        } /* else no following nodes */
+        break;
+
     case LYXP_AXIS_FOLLOWING_SIBLING:
         if (node_type == LYXP_NODE_ELEM) {
             /* first next sibling */
@@ -6026,12 +6057,11 @@ moveto_axis_node_next_first(const struct lyd_node **iter, enum lyxp_node_type *i
         break;
 
     case LYXP_AXIS_PRECEDING:
-        if ((node_type == LYXP_NODE_ELEM) && node->prev->next) {
-            /* skip ancestors */
-            next = moveto_axis_node_next_dfs_backward(node, NULL);
-            assert(next);
-            next_type = LYXP_NODE_ELEM;
-        } /* else no sibling */
+        if ((node_type == LYXP_NODE_ELEM) || (node_type == LYXP_NODE_TEXT)) {
+            /* skip ancestors (a text node is stored as its parent, which is skipped as well) */
+            next = moveto_axis_node_next_preceding(node, node);
+            next_type = next ? LYXP_NODE_ELEM : 0;
+        } /* else no preceding nodes */
         break;
 
     case LYXP_AXIS_PRECEDING_SIBLING:
@@ -6140,7 +6170,7 @@ moveto_axis_node_next(const struct lyd_node **iter, enum lyxp_node_type *iter_ty
 
     case LYXP_AXIS_PRECEDING:
         assert(*iter_type == LYXP_NODE_ELEM);
-        next = moveto_axis_node_next_dfs_backward(*iter, NULL);
+        next = moveto_axis_node_next_preceding(*iter, node);
         next_type = next ? LYXP_NODE_ELEM : 0;
         break;
 
